@@ -7,7 +7,8 @@
      enumerated by TLC (requests on shared downstream connections with ids that collide with the proxy's upstream ids,
      answers in any order, late, duplicate, unknown ids, timeouts, upstream close) is realised on an in-process MOSN
      (bolt proxy) with a scripted bolt upstream and raw bolt clients; plus randomised concurrent storms. Every frame a
-     client received is judged by TLC with XJudge!Verdict."""
+     client received is judged by TLC with XJudge!Verdict; the same judgement is applied to HTTP/1.1 clients over pooled
+     ping-pong upstream connections whose exchanges are abandoned by timeouts."""
 import json, os, random, re, subprocess
 from concurrent.futures import ThreadPoolExecutor
 import vlib
@@ -140,9 +141,11 @@ def run(ctx):
     ttraces, tres = run_shards(ctx, binary, "table", 2 if q else 6, ["-cases", tpath], 900)
     htraces, hres = run_shards(ctx, binary, "hop", 12 if q else 14, ["-cases", hpath], 1700)
     straces, sres = run_shards(ctx, binary, "storm", 4 if q else 12, ["-rounds", "25" if q else "150"], 1700)
+    ptraces, pres = run_shards(ctx, binary, "h1", 2 if q else 6, ["-rounds", "12" if q else "80"], 1700)
 
     jobs = [("table", "XStreamConnTrace", t, "tnew") for t in ttraces] + \
-           [("hop", "XHopTrace", t, "run") for t in htraces] + [("storm", "XHopTrace", t, "run") for t in straces]
+           [("hop", "XHopTrace", t, "run") for t in htraces] + [("storm", "XHopTrace", t, "run") for t in straces] + \
+           [("h1", "XHopTrace", t, "run") for t in ptraces]
     with ThreadPoolExecutor(max_workers=6) as ex:
         outs = list(ex.map(lambda j: validate(ctx, *j), jobs))
 
@@ -175,16 +178,20 @@ def run(ctx):
     ctx.cov["storm"] = dict(rounds=len(storms), requests=sum(r.get("requests", 0) for r in storms),
                             error_replies=sum(r.get("errors", 0) for r in storms),
                             id_collisions=sum(r.get("collisions", 0) for r in storms), upstream_closes=sum(r.get("closed", 0) for r in storms))
+    h1s = [r for r in pres if not r.get("summary")]
+    ctx.cov["h1"] = dict(rounds=len(h1s), requests=sum(r.get("requests", 0) for r in h1s), error_replies=sum(r.get("errors", 0) for r in h1s),
+                         broken_connections=sum(r.get("noreply", 0) for r in h1s))
     ctx.cov["table"] = dict(histories=len(tcases))
     ctx.cov["trace_events"] = {k: v["events"] for k, v in parts.items()}
-    ctx.cov["evaluations"] = len(tcases) + len(runs) + ctx.cov["storm"]["requests"]
+    ctx.cov["evaluations"] = len(tcases) + len(runs) + ctx.cov["storm"]["requests"] + ctx.cov["h1"]["requests"]
     ctx.cov["distinct_nontrivial"] = len(tcases) + len([c for c in hcases if features(c)])
     ctx.cov["exhaustive"] = not q
     ctx.cov["rule"] = ("table: every history of <=%d ops (new/resp for any waiter's latest id/ghost id/reset/connreset) over 3 waiters, id counter "
                        "seeded at 2^32-2, replayed into the real bolt client stream connection; hop: every schedule of 6 steps over 3 requests "
                        "on <=2 downstream connections (send with fresh or colliding id and long or short timeout / ans / dup / ghost / tmo / close) "
                        "from XHop.tla (%d), quick = collision+timeout+late/dup core plus a VERIF_SEED sample; storm: VERIF_SEED-randomised "
-                       "pipelined clients on shared connections" % (5 if q else 6, len(hall)))
+                       "pipelined clients on shared connections; h1: sequential HTTP/1.1 clients over pooled ping-pong upstream connections, 30%% of the "
+                       "requests time out in the proxy before the upstream answers" % (5 if q else 6, len(hall)))
     if skipped and not ctx.violations and not ctx.known_hits:
         raise vlib.Inconclusive("drivers skipped %d schedules after %d lost waits although no mismatch was found" % (skipped, lost))
     if runs and div * 2 > len(runs):
